@@ -259,6 +259,14 @@ type printer struct {
 	defined  map[int]bool
 	vars     map[string]int
 	usedReal bool
+	ufuns    map[string]int
+}
+
+func (p *printer) uterm(t string) {
+	if p.ufuns == nil {
+		p.ufuns = map[string]int{"utrue": 0}
+	}
+	uCollect(t, p.ufuns)
 }
 
 // onlyReal reports whether every declared variable is a Real (field mode).
